@@ -30,14 +30,15 @@ func init() {
 			if tier == "thorough" {
 				n = 48
 			}
-			return []core.Part{{Name: "disconnects", Bin: "raceov", Batches: n, Parallel: 6, TimeoutS: 600, Env: []string{"VERIF_YIELD=1"}}}
+			return []core.Part{{Name: "disconnects", Bin: "raceov", Batches: n, Parallel: 6, TimeoutS: 600, Env: []string{"VERIF_YIELD=1"}},
+				{Name: "long-scenarios", Bin: "plain", Batches: 1, TimeoutS: 300}}
 		},
 		Assumptions: []string{
 			"liveness restated as bounded progress: every SendActiveMessage call must return within timeout + slack, slack = 3 s + 20 x timeout, judged only while a concurrent scheduling-latency probe stays below slack/4 (otherwise the scenario is inconclusive)",
 			"interleavings are those produced by seeded delay injection at every channel operation, select arm, close and socket write of package service (overlay generated from the current tree); evidence counts distinct site-order traces",
-			"OverTimeDuration < 0 (documented 'no timeout') is not exercised",
+			"the ten-second scenarios (writer held 6.5 s, commands without a timeout to a silent peer, a peer that stops reading until a server write blocks) run without delay injection in a part of their own",
 		},
-	}, map[string]Worker{"disconnects": c13Worker})
+	}, map[string]Worker{"disconnects": c13Worker, "long-scenarios": c13Long})
 }
 
 // ---- latency probe: largest observed overshoot of a 1 ms sleep, in ms
@@ -152,6 +153,20 @@ func goroutineDump() []string {
 		}
 	}
 	return out
+}
+
+var floodBytes atomic.Int64
+
+// goroutineInIOWaitWrite: some goroutine of package service's connection writer is parked in a socket write.
+func goroutineInIOWaitWrite() bool {
+	var buf bytes.Buffer
+	pprof.Lookup("goroutine").WriteTo(&buf, 2)
+	for _, g := range strings.Split(buf.String(), "\n\n") {
+		if strings.Contains(g, "IO wait") && strings.Contains(g, "internal/poll.(*FD).Write") && strings.Contains(g, "service.(*connection).write") {
+			return true
+		}
+	}
+	return false
 }
 
 // goroutineRunning reports whether any goroutine currently has a frame of the given function on its stack.
@@ -320,22 +335,70 @@ func c13Run(srv *svc.Server, sc c13Scenario, r *core.Rand) (viol [][2]string, in
 			raw.Close()
 			return nil, true, false, nil
 		}
+		// flood for the whole scenario (a write cut short by its deadline resumes where it stopped, so the stream stays
+		// well-formed); meanwhile sc.K callers keep one command each in flight until the peer closes after 12 s. Wherever the
+		// server's writer gets stuck — and whatever it does about a write that does not complete — the calls outstanding at
+		// that moment return at the latest when the connection is gone.
+		var batch []byte
+		for k := 0; k < 1000; k++ {
+			batch = append(batch, t.Frame(0x0002, uint16(k+2), nil)...)
+		}
+		closeAt := time.Now().Add(12 * time.Second)
+		floodDone := make(chan struct{})
 		go func() {
-			var buf []byte
-			for k := 0; k < 200000; k++ {
-				buf = append(buf, t.Frame(0x0002, uint16(k), nil)...)
-				if len(buf) > 60000 {
-					raw.SetWriteDeadline(time.Now().Add(8 * time.Second))
-					if _, err := raw.Write(buf); err != nil {
+			defer close(floodDone)
+			pending := batch
+			total := 0
+			defer func() { floodBytes.Add(int64(total)) }()
+			for time.Now().Before(closeAt) {
+				raw.SetWriteDeadline(time.Now().Add(200 * time.Millisecond))
+				n, err := raw.Write(pending)
+				total += n
+				pending = pending[n:]
+				if len(pending) == 0 {
+					pending = batch
+				}
+				if err != nil {
+					if ne, ok := err.(net.Error); !ok || !ne.Timeout() {
 						return
 					}
-					buf = buf[:0]
 				}
 			}
 		}()
-		time.Sleep(1500 * time.Millisecond)
-		launchLim(sc.K, timeout, 6500*time.Millisecond+timeout+slack)
-		time.Sleep(6500 * time.Millisecond)
+		sawBlocked := false
+		for i := 0; i < sc.K; i++ {
+			wg.Add(1)
+			go func(i int) {
+				defer wg.Done()
+				for time.Now().Before(closeAt) {
+					body := []byte{1, 0, 0, 0, 1, 4, byte(i), 0, 0, 0}
+					res := sendCmd(srv.G, t.Phone, consts.P8103SetTerminalParams, body, timeout, time.Until(closeAt)+timeout+slack)
+					mu.Lock()
+					results = append(results, res.kind)
+					mu.Unlock()
+					if res.kind == "stranded" || res.kind == "notexist" {
+						return
+					}
+				}
+			}(i)
+		}
+		// ... and every 400 ms four more calls are made: once the writer is stuck these stay UNWRITTEN in the connection's
+		// command queue and at the session manager, behind the ones that were written and wait for their answers
+		tick := 0
+		for time.Now().Before(closeAt) {
+			time.Sleep(200 * time.Millisecond)
+			tick++
+			if tick%2 == 0 && time.Until(closeAt) > time.Second {
+				launchLim(4, timeout, time.Until(closeAt)+timeout+slack)
+			}
+			if !sawBlocked && goroutineInIOWaitWrite() {
+				sawBlocked = true
+			}
+		}
+		<-floodDone
+		if !sawBlocked {
+			incon = true // the server's writer was never seen parked in a socket write: the situation was not produced
+		}
 		if sc.RST {
 			if tc, ok := raw.(*net.TCPConn); ok {
 				tc.SetLinger(0)
@@ -440,7 +503,59 @@ func c13Run(srv *svc.Server, sc c13Scenario, r *core.Rand) (viol [][2]string, in
 		poisoned = true
 	}
 	t.Close()
-	return viol, false, poisoned, results
+	return viol, incon && len(viol) == 0, poisoned, results
+}
+
+// c13Long: the scenarios that take ten seconds of real time each, side by side, against a server without delay injection.
+func c13Long(c *core.Collector, x *Ctx) {
+	c.Rule = "three ten-second scenarios in parallel: the writer held 6.5 s in one write callback with 100 ms commands queued behind it; four commands WITHOUT a timeout (negative duration) to a peer that reads them, stays silent for 9 s, answers one and leaves; a peer that stops reading while it floods heartbeats until a write of the server blocks (observed in the goroutine dump), 8 commands queued behind that for 6.5 s, then the peer closes. " +
+		"oracle: process alive, every call returned. evaluation = one call"
+	startProbe()
+	srv, err := svc.Start(func() service.TerminalEventer { return svc.NewRecorder() })
+	if err != nil {
+		c.Inconclusive()
+		return
+	}
+	var longWG sync.WaitGroup
+	for li, sc := range []c13Scenario{
+		{Point: "writer-held-long", K: 3, TimeoutMs: 100, RST: true, Key: "1900778", HoldMs: 6500},
+		{Point: "no-timeout-silent-peer", K: 4, TimeoutMs: 100, RST: false, Key: "1900779"},
+		{Point: "stalled-reader-then-close", K: 8, TimeoutMs: 100, RST: false, Key: "1900780"},
+		{Point: "stalled-reader-then-close", K: 5, TimeoutMs: 1000, RST: true, Key: "1900781"},
+	} {
+		longWG.Add(1)
+		go func(li int, sc c13Scenario) {
+			defer longWG.Done()
+			x.Journal.Log(true, "long scenario %+v", sc)
+			viol, incon, _, res := c13Run(srv, sc, core.NewRand(c.Seed, "c13long", uint64(li)))
+			c.Evals(int64(len(res)))
+			c.Count("calls_in_ten_second_scenarios", int64(len(res)))
+			for _, k := range res {
+				c.Count("long_"+sc.Point+"_"+k, 1)
+			}
+			c.NonTrivial(core.HashString(fmt.Sprintf("long/%d/%v", li, res)))
+			if incon {
+				c.Inconclusive()
+			}
+			for _, v := range viol {
+				c.Violate(v[0], v[1], sc)
+			}
+		}(li, sc)
+	}
+	longWG.Wait()
+	c.Count("bytes_flooded_at_peers_that_do_not_read", floodBytes.Load())
+	c.Floor("calls_in_ten_second_scenarios", 12)
+	t, err := svc.Dial(srv.Addr, false, "99000777")
+	if err == nil {
+		t.Write(t.Frame(0x0002, 1, nil))
+		rx, ok, to := t.Next(20 * time.Second)
+		if to {
+			c.Inconclusive()
+		} else if !ok || rx.F == nil || rx.F.ID != 0x8001 {
+			c.Violate("liveness|server no longer serves new connections after the disconnect scenarios", "a fresh connection's heartbeat was not answered", nil)
+		}
+		t.Close()
+	}
 }
 
 func c13Worker(c *core.Collector, x *Ctx) {
@@ -505,31 +620,6 @@ func c13Worker(c *core.Collector, x *Ctx) {
 			c.Violate(v[0], v[1], sc)
 		}
 	}
-	var longWG sync.WaitGroup
-	if x.Batch == 0 {
-		// two 10-second scenarios in the background of the grid (own keys)
-		for li, sc := range []c13Scenario{
-			{Point: "writer-held-long", K: 3, TimeoutMs: 100, RST: true, Key: "1900778", HoldMs: 6500},
-			{Point: "no-timeout-silent-peer", K: 4, TimeoutMs: 100, RST: false, Key: "1900779"},
-			{Point: "stalled-reader-then-close", K: 8, TimeoutMs: 100, RST: false, Key: "1900780"},
-		} {
-			longWG.Add(1)
-			go func(li int, sc c13Scenario) {
-				defer longWG.Done()
-				x.Journal.Log(true, "long scenario %+v", sc)
-				viol, incon, _, res := c13Run(srv, sc, core.NewRand(c.Seed, "c13long", uint64(li)))
-				c.Evals(int64(len(res)))
-				c.Count("calls_in_ten_second_scenarios", int64(len(res)))
-				if incon {
-					c.Inconclusive()
-				}
-				for _, v := range viol {
-					c.Violate(v[0], v[1], sc)
-				}
-			}(li, sc)
-		}
-	}
-	defer longWG.Wait()
 	per := c.N(100, 160)
 	r := core.NewRand(c.Seed, "c13", uint64(x.Batch))
 	perm := r.Perm(len(grid))
@@ -586,7 +676,6 @@ func c13Worker(c *core.Collector, x *Ctx) {
 		}(i, sc)
 	}
 	wg.Wait()
-	longWG.Wait()
 	for k, v := range kinds {
 		c.Count("result_"+k, v)
 	}
